@@ -6,7 +6,8 @@ from tokutil import *  # noqa
 from protocol import from_real
 
 ID = "C03"
-LEAN_MODULE = ["SCoda.Props.C01", "SCoda.Props.C01b", "SCoda.Props.C10"]
+LEAN_MODULE = ["SCoda.Props.C01", "SCoda.Props.C01b", "SCoda.Props.C03b", "SCoda.Props.C10"]
+LEVEL = "proof"
 CLAUSES = [
     ("two consecutive calls threading the state emit (notes and bar ends) exactly what one call on the joined events emits; "
      "by induction every grouping of consecutive whole-bar chunks does",
@@ -16,7 +17,9 @@ CLAUSES = [
     ("any number of consecutive calls threading the state: the concatenated stream makes the detokeniser emit exactly the specification log of the whole piece "
      "(chunk i laid at the clock its call starts from)", ["SCoda.C01.chunked_n"]),
     ("glue: a bar produced by sequences_split_bars lasts exactly its signature's length (so chunks of bars are whole bars)", ["SCoda.C10.bar_duration"]),
-    ("glue: a call on whole bars ends exactly that many ticks later (the padded bar's INTERNAL cap drives the clock to the bar line)", None),
+    ("glue: where a call ends — on the onset of its last event if that is a bar line, else at the end of the bar containing it; hence a call on whole bars "
+     "ends at the end of its last bar unless nothing in that bar moves the clock off the bar line (partial: known finding D19, refuted in general by a kernel-checked example)",
+     ["SCoda.C01.call_end", "SCoda.C01.call_end_tokenise", "SCoda.C01.foldClock_cur", "SCoda.C01.call_stalls_on_barline"]),
 ]
 RULE = ("valid pieces (1-3 tracks, 2-6 bars, signature changes, empty bars) split into bars by sequences_split_bars, regrouped "
         "by random partitions (thorough: all 2^(bars-1) partitions up to 6 bars) x sampled configurations; "
